@@ -173,7 +173,7 @@ pub fn shape_strategy() -> BoxedStrategy<Shape> {
         1 => Just(Shape::BoxDyn),
         6 => (0u8..NESTS).prop_map(Shape::Nest),
         2 => Just(Shape::NonReporting),
-        14 => (1u8..=3, 0u8..NWRAP, 0u8..NWRAP, 0u8..NWRAP).prop_map(|(d, a, b, c)| Shape::Comp(d, a, if d >= 2 { b } else { 0 }, if d >= 3 { c } else { 0 })),
+        14 => (1u8..=3, 0u8..NWRAP, 0u8..NWRAP, 0u8..NWRAP).prop_map(|(d, a, b, c)| Shape::Comp(d, a, if d >= 2 { b } else { 0 }, if d >= 3 { SUB3[(c % 8) as usize] } else { 0 })),
     ]
     .boxed()
 }
@@ -440,8 +440,9 @@ pub fn describe(s: Shape) -> String {
     match s {
         Shape::Comp(d, a, b, c) => {
             let mut t = String::from("Probe");
-            for w in [a, b, c].iter().take(d.clamp(1, 3) as usize) {
-                t = format!("{}<{}>", WRAP_NAMES[(*w % NWRAP) as usize], t);
+            for (lvl, w) in [a, b, c].iter().enumerate().take(d.clamp(1, 3) as usize) {
+                let w = if lvl == 2 && !SUB3.contains(&(*w % NWRAP)) { 0 } else { *w % NWRAP };
+                t = format!("{}<{}>", WRAP_NAMES[w as usize], t);
             }
             t
         }
@@ -774,10 +775,24 @@ macro_rules! dispatch {
         }
     };
 }
-fn d0<T: Build>(_k: &[u8], case: &CCase, r: &mut CResult) {
-    comp_leaf::<T>(case, r)
+/// The outermost level of depth-3 compositions is restricted to eight wrappers (keeps the number
+/// of instantiated types at 15 + 225 + 1 800 instead of 3 615; compile time of the harness).
+pub const SUB3: [u8; 8] = [0, 1, 2, 4, 9, 10, 11, 14];
+fn d1<T: Build>(k: &[u8], case: &CCase, r: &mut CResult) {
+    if k.is_empty() {
+        return comp_leaf::<T>(case, r);
+    }
+    match k[0] % NWRAP {
+        1 => comp_leaf::<[T; 2]>(case, r),
+        2 => comp_leaf::<Box<[T]>>(case, r),
+        4 => comp_leaf::<Option<T>>(case, r),
+        9 => comp_leaf::<(T, T)>(case, r),
+        10 => comp_leaf::<RefCell<T>>(case, r),
+        11 => comp_leaf::<ManuallyDrop<T>>(case, r),
+        14 => comp_leaf::<DynOf<T>>(case, r),
+        _ => comp_leaf::<Vec<T>>(case, r),
+    }
 }
-dispatch!(d1, d0);
 dispatch!(d2, d1);
 dispatch!(d3, d2);
 
@@ -787,10 +802,11 @@ pub fn fixed_grid(max_depth: u8) -> Vec<CCase> {
     let mut v = Vec::new();
     for d in 1..=max_depth.min(3) {
         let n = NWRAP as u32;
-        for code in 0..n.pow(d as u32) {
+        let total = if d == 3 { n * n * 8 } else { n.pow(d as u32) };
+        for code in 0..total {
             let a = (code % n) as u8;
             let b = ((code / n) % n) as u8;
-            let c = ((code / n / n) % n) as u8;
+            let c = if d == 3 { SUB3[((code / n / n) % 8) as usize] } else { 0 };
             let shape = Shape::Comp(d, a, b, c);
             v.push(CCase { shape, has_cc: u64::MAX, cycle: 255, extra: 0 });
             v.push(CCase { shape, has_cc: u64::MAX, cycle: (code % 8) as u8, extra: 0 });
